@@ -87,9 +87,12 @@ type Case struct {
 	Req     []string `json:"req,omitempty"` // update: fields of the runtime's requested resources
 	// ReqDevRules: the runtime's requested resources also carry device cgroup rules (part of
 	// LinuxResources; no plugin can change them)
-	ReqDevRules bool     `json:"req_dev_rules,omitempty"`
-	Chain       []Script `json:"chain"`
-	Par         int      `json:"par,omitempty"` // number of identical requests in flight (different ids)
+	ReqDevRules bool `json:"req_dev_rules,omitempty"`
+	// HugePod: the pod of the request carries an annotation that alone makes the request
+	// larger than the 4 MiB message limit of the plugin protocol
+	HugePod bool     `json:"huge_pod,omitempty"`
+	Chain   []Script `json:"chain"`
+	Par     int      `json:"par,omitempty"` // number of identical requests in flight (different ids)
 	// Pal selects the value palette the case is rendered with (render.go: plain, big numbers,
 	// negative numbers, odd strings).
 	Pal int `json:"pal,omitempty"`
@@ -354,6 +357,7 @@ func GenCase(t *rapid.T, b Bias) Case {
 	full := rapid.IntRange(0, 99).Draw(t, "full") < b.Populated
 	if c.Kind == "create" {
 		c.Orig = genOrig(t, full)
+		c.HugePod = gen.Uniform(t, "hugepod", 120) == 0
 	}
 	if c.Kind == "update" {
 		p := 40
